@@ -19,3 +19,5 @@ mod c11_cookies;
 mod c13_basicauth;
 #[cfg(kani)]
 mod c02_request;
+#[cfg(kani)]
+mod c14_cors;
